@@ -222,8 +222,11 @@ fn validate_type(env: &TypeEnv, seen: &mut BTreeMap<String, bool>, t: &Type) -> 
         TypeInner::Func(func) => validate_func(env, seen, func),
         TypeInner::Service(methods) => {
             for (_, ty) in methods.iter() {
-                let func = env.as_func(ty)?;
-                validate_func(env, seen, func)?;
+                env.as_func(ty)?;
+                // Walk the method type itself, so that a name is entered at most once: a function
+                // reached through its own name (`type F = func (service { m : F }) -> ()`) would
+                // otherwise be walked again and again.
+                validate_type(env, seen, ty)?;
             }
             Ok(())
         }
